@@ -133,6 +133,13 @@ fn fill_f64(shape: &[usize], lay_idx: usize, seed: f64) -> (Embedded<f64>, Strin
     (Embedded::new(shape, &data, lay), cls)
 }
 
+fn fill_f64_lay(shape: &[usize], lay: Layout, seed: f64) -> (Embedded<f64>, String) {
+    let n: usize = shape.iter().product();
+    let data: Vec<f64> = (0..n).map(|i| 0.5 + seed + i as f64 * 0.25).collect();
+    let cls = lay.class();
+    (Embedded::new(shape, &data, lay), cls)
+}
+
 fn is_empty(shape: &[usize]) -> bool {
     shape.iter().product::<usize>() == 0
 }
@@ -231,8 +238,17 @@ fn main() {
             t.cell("argmax", "f64", first, "-", &lc, exp_empty.clone(), observe(|| v.argmax().map(|_| ())));
             // ---------------- two-input routines: every second shape x second layout
             for (label, second) in second_shapes(first) {
-                for l2 in [li, (li + 3) % 8] {
-                    let (e2, lc2) = fill_f64(&second, l2, 0.125);
+                let mut l2s: Vec<Layout> = vec![Layout::family(second.len(), li), Layout::family(second.len(), (li + 3) % 8)];
+                // a second operand of another shape whose STRIDES equal those of the first (both are windows of parents
+                // with the same row pitch): only the shapes tell them apart
+                if li == 0 && second.len() == first.len() && first.len() >= 2 && second[second.len() - 1] < first[first.len() - 1] {
+                    let mut l = Layout::canonical(second.len());
+                    l.pad_a[second.len() - 1] = first[first.len() - 1] - second[second.len() - 1];
+                    l2s.push(l);
+                }
+                for l2lay in l2s {
+                    let l2 = if l2lay == Layout::family(second.len(), li) { li } else { (li + 3) % 8 };
+                    let (e2, lc2) = fill_f64_lay(&second, l2lay.clone(), 0.125);
                     let w = e2.view();
                     let v = v.view(); // reborrow with the shorter lifetime of `e2` (`weights: &Self`)
                     let same = second == *first;
